@@ -2,10 +2,12 @@ package main
 
 import (
 	"fmt"
+	"go/ast"
 	"go/constant"
 	"go/types"
 	"sort"
 	"strings"
+	"sync"
 
 	"golang.org/x/tools/go/ssa"
 	"golang.org/x/tools/go/ssa/ssautil"
@@ -52,6 +54,7 @@ var frameChecks = []*FrameCheck{
 	{Name: "locked-efund-writers", Props: []string{"C05", "C04"}, Packages: consensusPkgs, Run: frameLockedWriters},
 	{Name: "fee-decorators-are-read-only", Props: []string{"C14", "C06"}, Packages: consensusPkgs, Run: frameFeeDecoratorsReadOnly},
 	{Name: "ante-chain-order", Props: []string{"C05", "C06"}, Packages: []string{modPfx + "ante"}, Run: frameAnteOrder},
+	{Name: "module-entry-points-delegate", Props: []string{"C15", "C14", "C03"}, Packages: consensusPkgs, Run: frameModuleEntryPoints},
 	{Name: "store-reached-only-through-key-builders", Props: []string{"C18"}, Packages: keeperPkgs, Run: frameStoreKeys},
 }
 
@@ -305,7 +308,8 @@ func frameMintBurn(p *Program, cs *ContractSet) []*FrameResult {
 	for _, fn := range all {
 		for _, c := range callsOf(fn) {
 			if strings.HasSuffix(c.callee, ").MintCoins") || strings.HasSuffix(c.callee, ".MintCoins") {
-				if !strings.HasSuffix(fn.String(), "x/enterprise/keeper.Keeper).MintCoinsAndLock") {
+				frameContracts = cs
+				if !toleratedCaller(p, fn, func(n string) bool { return strings.HasSuffix(n, "x/enterprise/keeper.Keeper).MintCoinsAndLock") }, 0) {
 					badMint = append(badMint, fmt.Sprintf("%s calls %s at %s", shortFn(fn.String()), c.callee, posOf(p, c.instr)))
 				}
 			}
@@ -625,24 +629,71 @@ func callersOf(p *Program, suffix string) []string {
 	return uniq(out)
 }
 
-func expectCallers(p *Program, callee string, allowed ...string) []string {
-	var bad []string
-	for _, c := range callersOf(p, callee) {
-		ok := false
-		for _, a := range allowed {
-			if strings.HasSuffix(c, a) {
-				ok = true
+// expectCallers: every caller of callee is one of the allowed functions - or an unexported helper without a contract
+// of its own all of whose callers are (transitively) allowed: such a helper is executed as part of its callers, so
+// extracting one does not open a new way to the callee.
+var frameContracts *ContractSet // set by the frame family entry points
+
+func callerFuncsOf(p *Program, suffix string) []*ssa.Function {
+	var out []*ssa.Function
+	for fn := range ssautil.AllFunctions(p.prog) {
+		if fn.Pkg == nil || !p.isRepoPkg(fn.Pkg.Pkg.Path()) || isTestOrTooling(fn, p) {
+			continue
+		}
+		for _, c := range callsOf(fn) {
+			if strings.HasSuffix(c.callee, suffix) {
+				out = append(out, fn)
+				break
 			}
 		}
-		if !ok {
-			bad = append(bad, c+" calls "+callee)
+	}
+	sort.Slice(out, func(i, j int) bool { return out[i].String() < out[j].String() })
+	return out
+}
+
+func expectCallers(p *Program, callee string, allowed ...string) []string {
+	var bad []string
+	isAllowed := func(name string) bool {
+		for _, a := range allowed {
+			if strings.HasSuffix(name, a) {
+				return true
+			}
+		}
+		return false
+	}
+	for _, c := range callerFuncsOf(p, callee) {
+		if !toleratedCaller(p, c, isAllowed, 0) {
+			bad = append(bad, shortFn(c.String())+" calls "+callee)
 		}
 	}
-	return bad
+	return uniq(bad)
+}
+
+func toleratedCaller(p *Program, fn *ssa.Function, isAllowed func(string) bool, depth int) bool {
+	if isAllowed(shortFn(fn.String())) {
+		return true
+	}
+	if depth > 4 || frameContracts == nil || frameContracts.Lookup(fn.String()) != nil || fn.Parent() != nil {
+		return false
+	}
+	if ast.IsExported(fn.Name()) {
+		return false
+	}
+	cs := callerFuncsOf(p, fn.String())
+	if len(cs) == 0 {
+		return false
+	}
+	for _, c := range cs {
+		if c != fn && !toleratedCaller(p, c, isAllowed, depth+1) {
+			return false
+		}
+	}
+	return true
 }
 
 func frameLockedWriters(p *Program, cs *ContractSet) []*FrameResult {
 	var bad []string
+	frameContracts = cs
 	bad = append(bad, expectCallers(p, ").UnlockCoinsForFees", "CheckLockedUndDecorator).AnteHandle")...)
 	bad = append(bad, expectCallers(p, "Keeper).decrementLockedUnd", "Keeper).UnlockCoinsForFees")...)
 	bad = append(bad, expectCallers(p, "Keeper).incrementSpentEFUND", "Keeper).UnlockCoinsForFees")...)
@@ -885,4 +936,165 @@ func frameAnteOrder(p *Program, cs *ContractSet) []*FrameResult {
 	before("NewCorrectBeaconFeeDecorator", "NewCheckLockedUndDecorator")
 	before("NewCheckLockedUndDecorator", "NewDeductFeeDecorator")
 	return []*FrameResult{res("ante-chain-order", "in ante.NewAnteHandler message validation precedes the WRKChain and BEACON fee decorators, both precede the locked-eFUND unlock, and the unlock precedes the SDK fee deduction; signature verification is in the chain", bad)}
+}
+
+// mayChangeState: can the repository function fn (transitively: static calls, closures, keeper interfaces) reach a
+// KVStore write, a bank mutator, or any function whose contract has a modifies clause?  Returns the reason, or "".
+// Used for calls of repository helpers that have no contract and are too large to execute from their body.
+var (
+	mcsMu    sync.Mutex
+	mcsCache = map[*ssa.Function]string{}
+)
+
+func (p *Program) mayChangeState(fn *ssa.Function, cs *ContractSet) string {
+	mcsMu.Lock()
+	defer mcsMu.Unlock()
+	if r, ok := mcsCache[fn]; ok {
+		return r
+	}
+	seen := map[*ssa.Function]bool{}
+	var visit func(f *ssa.Function) string
+	visit = func(f *ssa.Function) string {
+		if seen[f] {
+			return ""
+		}
+		seen[f] = true
+		if len(f.Blocks) == 0 {
+			return "calls " + shortFn(f.String()) + ", which has no body"
+		}
+		for _, c := range callsOf(f) {
+			keys := []string{c.callee}
+			if c.invoke {
+				parts := strings.Split(c.callee, ").")
+				m := parts[len(parts)-1]
+				if strings.Contains(c.callee, "KVStore") && (m == "Set" || m == "Delete") {
+					return "reaches a store write in " + shortFn(f.String())
+				}
+				keys = nil
+				for iface, conc := range cs.Impls {
+					if strings.HasPrefix(c.callee, "("+iface+").") {
+						keys = append(keys, "("+conc+")."+c.callee[len(iface)+3:])
+					}
+				}
+				keys = append(keys, c.callee)
+			}
+			for _, ck := range keys {
+				if ct := cs.Lookup(ck); ct != nil && !ct.Inline {
+					if len(ct.Modifies) > 0 {
+						return "reaches " + shortFn(ck) + ", whose contract has a modifies clause"
+					}
+					continue
+				}
+				if cf := p.FindFunc(ck); cf != nil && cf.Pkg != nil && p.isRepoPkg(cf.Pkg.Pkg.Path()) {
+					if r := visit(cf); r != "" {
+						return r
+					}
+				} else if c.invoke && strings.Contains(ck, "Keeper") && !strings.Contains(ck, "KVStore") {
+					// a keeper interface method without contract: unknown effect
+					if cs.Lookup(ck) == nil {
+						return "calls the interface method " + shortFn(ck) + ", which has no contract"
+					}
+				}
+			}
+		}
+		for _, af := range f.AnonFuncs {
+			if r := visit(af); r != "" {
+				return r
+			}
+		}
+		return ""
+	}
+	r := visit(fn)
+	mcsCache[fn] = r
+	return r
+}
+
+// ---------------------------------------------------------------- C15 / C14: the SDK-facing wrappers only delegate
+
+// frameModuleEntryPoints: the AppModule methods the SDK calls at genesis and at block boundaries do nothing but decode
+// the document and hand over to the function that is under contract: InitGenesis / ExportGenesis / ValidateGenesis
+// call their module function exactly once (ValidateGenesis returns its result), enterprise BeginBlock calls BeginBlocker,
+// and every other BeginBlock / EndBlock of the four modules calls no repository function at all.
+func frameModuleEntryPoints(p *Program, cs *ContractSet) []*FrameResult {
+	var bad []string
+	type want struct{ method, target string }
+	mods := map[string][]want{
+		"enterprise": {{"(AppModule).InitGenesis", "x/enterprise.InitGenesis"}, {"(AppModule).ExportGenesis", "x/enterprise.ExportGenesis"}, {"(AppModuleBasic).ValidateGenesis", "x/enterprise/types.ValidateGenesis"}, {"(AppModule).BeginBlock", "x/enterprise.BeginBlocker"}, {"(AppModule).EndBlock", ""}},
+		"wrkchain":   {{"(AppModule).InitGenesis", "x/wrkchain.InitGenesis"}, {"(AppModule).ExportGenesis", "x/wrkchain.ExportGenesis"}, {"(AppModuleBasic).ValidateGenesis", "x/wrkchain/types.ValidateGenesis"}, {"(AppModule).BeginBlock", ""}, {"(AppModule).EndBlock", ""}},
+		"beacon":     {{"(AppModule).InitGenesis", "x/beacon.InitGenesis"}, {"(AppModule).ExportGenesis", "x/beacon.ExportGenesis"}, {"(AppModuleBasic).ValidateGenesis", "x/beacon/types.ValidateGenesis"}, {"(AppModule).BeginBlock", ""}, {"(AppModule).EndBlock", ""}},
+		"stream":     {{"(AppModule).InitGenesis", "(x/stream/keeper.Keeper).InitGenesis"}, {"(AppModule).ExportGenesis", "(x/stream/keeper.Keeper).ExportGenesis"}, {"(AppModuleBasic).ValidateGenesis", "(x/stream/types.GenesisState).Validate"}, {"(AppModule).BeginBlock", ""}, {"(AppModule).EndBlock", ""}},
+	}
+	n := 0
+	for _, m := range []string{"enterprise", "wrkchain", "beacon", "stream"} {
+		pkg := p.byPath[modPfx+"x/"+m]
+		if pkg == nil {
+			bad = append(bad, "package x/"+m+" not loaded")
+			continue
+		}
+		for _, w := range mods[m] {
+			recv := strings.TrimSuffix(strings.TrimPrefix(strings.SplitN(w.method, ".", 2)[0], "("), ")")
+			name := strings.SplitN(w.method, ".", 2)[1]
+			var fn *ssa.Function
+			if t := pkg.Type(recv); t != nil {
+				fn = p.prog.LookupMethod(t.Type(), pkg.Pkg, name)
+			}
+			if fn == nil || len(fn.Blocks) == 0 {
+				bad = append(bad, fmt.Sprintf("x/%s.%s not found", m, w.method))
+				continue
+			}
+			n++
+			var hits []ssa.Value
+			for _, c := range callsOf(fn) {
+				callee := shortFn(c.callee)
+				if w.target != "" && callee == w.target {
+					if v, ok := c.instr.(ssa.Value); ok {
+						hits = append(hits, v)
+					} else {
+						hits = append(hits, nil)
+					}
+					continue
+				}
+				if !c.invoke {
+					if cf := p.FindFunc(c.callee); cf != nil && cf.Pkg != nil && p.isRepoPkg(cf.Pkg.Pkg.Path()) && !strings.HasSuffix(cf.Pkg.Pkg.Path(), "/types") {
+						bad = append(bad, fmt.Sprintf("x/%s.%s also calls %s", m, w.method, callee))
+					}
+				}
+			}
+			if w.target == "" {
+				continue
+			}
+			if len(hits) != 1 {
+				bad = append(bad, fmt.Sprintf("x/%s.%s calls %s %d times (expected exactly once)", m, w.method, w.target, len(hits)))
+				continue
+			}
+			if name != "ValidateGenesis" {
+				// the call happens on every path: its block dominates every return
+				callBlk := hits[0].(ssa.Instruction).Block()
+				for _, b := range fn.Blocks {
+					if len(b.Instrs) == 0 {
+						continue
+					}
+					if _, isRet := b.Instrs[len(b.Instrs)-1].(*ssa.Return); isRet && !callBlk.Dominates(b) {
+						bad = append(bad, fmt.Sprintf("x/%s.%s can return without calling %s", m, w.method, w.target))
+						break
+					}
+				}
+			}
+			if name == "ValidateGenesis" {
+				returned := false
+				for _, b := range fn.Blocks {
+					for _, in := range b.Instrs {
+						if r, ok := in.(*ssa.Return); ok && len(r.Results) == 1 && r.Results[0] == hits[0] {
+							returned = true
+						}
+					}
+				}
+				if !returned {
+					bad = append(bad, fmt.Sprintf("x/%s.%s does not return the result of %s", m, w.method, w.target))
+				}
+			}
+		}
+	}
+	_ = n
+	return []*FrameResult{res("module-entry-points-delegate", "AppModule InitGenesis/ExportGenesis/ValidateGenesis of the four modules call the function under contract exactly once (ValidateGenesis returns its verdict), enterprise BeginBlock calls BeginBlocker, all other Begin/EndBlock hooks call no module code", bad)}
 }
